@@ -223,6 +223,9 @@ void list_output_65816(
 
   bytes[0] = 0;
 
+  // .repeat passes the span of all copies, show at most 8 bytes (bytes[32]).
+  if (count > 8) { count = 8; }
+
   for (n = 0; n < count; n++)
   {
     char temp[4];
